@@ -29,8 +29,8 @@ CMP = {
     "gt": operator.gt,
     "ge": operator.ge,
 }
-BIN = {"add": lambda a, b: a + b, "sub": lambda a, b: a - b, "mul": lambda a, b: a * b}
-BIN_METHOD = {"add": "__add__", "sub": "__sub__", "mul": "__mul__"}
+BIN = {"add": lambda a, b: a + b, "sub": lambda a, b: a - b, "mul": lambda a, b: a * b, "fdiv": lambda a, b: a // b}
+BIN_METHOD = {"add": "__add__", "sub": "__sub__", "mul": "__mul__", "fdiv": "__floordiv__"}
 
 
 def ev(e, row):
@@ -234,7 +234,7 @@ def show_e(e) -> str:
         return f"-({show_e(e[1])})"
     if k == "rfn":
         return f"{e[1]}@{'/'.join(e[3])}({', '.join(show_e(a) for a in e[2])})"
-    return f"({show_e(e[1])}{ {'add': '+', 'sub': '-', 'mul': '*'}[k] }{show_e(e[2])})"
+    return f"({show_e(e[1])}{ {'add': '+', 'sub': '-', 'mul': '*', 'fdiv': '//'}[k] }{show_e(e[2])})"
 
 
 def show_p(p) -> str:
